@@ -61,42 +61,137 @@ def r1(F, R):
     R.floor(7)
 
 
+def _count_classes(paths):
+    """For each path: the set of candidate-count classes {0, 1, 2 (= many)} consistent with what it learned about
+    `Vec::len` / `Vec::pop` of the candidate list."""
+    from . import deep as D
+    listed = {}
+    for p in paths:
+        for a, o in p.conds:
+            if a[0] == "call" and re.search(r"Vec(::<.*>)?::len$", a[1]) and isinstance(o, int) and not isinstance(o, bool):
+                listed.setdefault(a, set()).add(o)
+    out = []
+    for p in paths:
+        poss = {0, 1, 2}
+        informed = False
+        for a, o in p.conds:
+            if a[0] == "call" and re.search(r"Vec(::<.*>)?::len$", a[1]):
+                informed = True
+                if isinstance(o, int) and not isinstance(o, bool):
+                    poss &= {min(o, 2)}
+                else:
+                    poss -= {min(v, 2) for v in listed.get(a, ())}
+            elif a[0] == "bin" and isinstance(o, bool) and any(x[0] == "call" and re.search(r"Vec(::<.*>)?::len$", x[1]) for x in (a[2], a[3]) if isinstance(x, tuple)):
+                informed = True
+                def val(x, n):
+                    if x[0] == "const":
+                        return x[1]
+                    return n
+                keep = set()
+                for n in poss:
+                    l, r = val(a[2], n), val(a[3], n)
+                    if not isinstance(l, int) or not isinstance(r, int):
+                        keep.add(n)
+                        continue
+                    # n = 2 stands for "2 or more": comparisons with constants <= 2 are exact for it except Eq/Le/Lt against 2
+                    res = {"Eq": l == r, "Lt": l < r, "Le": l <= r}.get(a[1])
+                    if res is None or res == o:
+                        keep.add(n)
+                poss = keep
+            elif a[0] == "discr" and a[1][0] == "call" and re.search(r"Vec(::<.*>)?::pop$", a[1][1]):
+                informed = True
+                poss &= ({1, 2} if o == "Some" else {0})
+        out.append((p, poss if informed else None))
+    return out
+
+
 def r2(F, R):
+    from . import deep as D
     b = find_body(F)
-    table = {}
-    for p in A.enumerate_paths(b):
-        n = [o for a, o in p.decisions if re.search(r"Vec::len\(", a)]
-        if not n:
+    paths = D.Deep(F, b, inline=False, max_paths=2000).run()
+    seen = {}
+    bad = None
+    for p, poss in _count_classes(paths):
+        if poss is None or p.cut:
             continue
-        ret = p.ret
-        kind = None
-        if isinstance(ret, tuple) and ret[1] == "std::result::Result":
-            if ret[2] == "Err":
-                kind = "Err"
-            else:
-                # Ok(None) vs Ok(Some(..))
-                opt = None
-                for s, k, st in reversed(p.effects):
-                    if k == "assign" and st["rv"]["k"] == "agg" and st["rv"].get("adt") == "std::option::Option" and b.locals[st["pl"]["l"]].startswith("std::option::Option<(&"):
-                        opt = st["rv"]["variant"]
-                        break
-                kind = f"Ok({opt})"
-        pops = len(p.calls(r"Vec::<.*>::pop$"))
-        table.setdefault(n[0], set()).add((kind, pops))
-    want = {"0": {("Ok(None)", 0)}, "1": {("Ok(Some)", 1)}, "otherwise": {("Err", 0)}}
-    R.check(table == want, "match-count-classification", b, "0 -> Ok(None), 1 -> Ok(Some(pop)), _ -> Err(ambiguous)",
-            f"classification by number of matches is { {k: sorted(v) for k, v in table.items()} }")
-    # the counted vector collects ALL matching definitions of the selected map: iter().filter_map(..).collect(), no early exit
-    lens = [(s, t) for s, t in b.calls(lambda t: callee_is(t, r"Vec::<.*>::len$"))]
+        if D.is_variant(p.ret, "std::result::Result", "Err"):
+            kind = "Err"
+        elif D.is_variant(p.ret, "std::result::Result", "Ok") and p.ret[3] and D.is_variant(p.ret[3][0], "std::option::Option"):
+            kind = f"Ok({p.ret[3][0][2]})"
+            if p.ret[3][0][2] == "Some" and not D.mentions(p.ret, lambda x: x[0] == "call" and re.search(r"Vec(::<.*>)?::(pop|remove|swap_remove)$|::next$|::first$|::last$", x[1])):
+                bad = "the returned match is not taken from the candidate list"
+        else:
+            kind = "?"
+        if len(poss) != 1:
+            bad = f"a path returning {kind} does not tell apart {sorted(poss)} candidates"
+            continue
+        seen.setdefault(next(iter(poss)), set()).add(kind)
+    want = {0: {"Ok(None)"}, 1: {"Ok(Some)"}, 2: {"Err"}}
+    show = {("0", "1", "many")[k]: sorted(v) for k, v in seen.items()}
+    R.check(seen == want and bad is None, "match-count-classification", b, "0 -> Ok(None), 1 -> Ok(Some(pop)), _ -> Err(ambiguous)",
+            f"classification by number of matches is {show}" + (f" ({bad})" if bad else ""))
+    # the counted vector collects ALL matching definitions of the selected map
+    lens = [(s, t) for s, t in b.calls(lambda t: callee_is(t, r"Vec::<.*>::(len|pop|is_empty)$"))]
     ok = False
     for s, t in lens:
         ch = A.receiver_chain(b, t["args"][0])
         names = [callee_path(c).rsplit("::", 1)[-1] for _, c in ch]
         if names[:3] == ["collect", "filter_map", "iter"]:
             ok = True
-    R.check(ok, "candidates-are-all-matches", b, "map.iter().filter_map(match).collect()", "the candidate list is not `iter().filter_map(..).collect()` over the whole map (order-dependent or partial)")
-    # the filter_map closure keeps a definition iff captures_read matched
+    if not ok:
+        ok = _loop_collects_all(F, b, lens)
+    R.check(ok, "candidates-are-all-matches", b, "map.iter().filter_map(match).collect()  (or a loop over the whole map pushing every match)",
+            "the candidate list is not built from every entry of the selected map (order-dependent or partial)")
     R.floor(2)
+
+
+def _loop_collects_all(F, b, lens):
+    """`for entry in map { if let Some(m) = re.captures_read(..) { candidates.push(..) } }`: a loop driven by the map's
+    iterator whose only exit is the iterator's end, pushing — guarded by nothing but the match — onto the vector that is
+    counted afterwards."""
+    nexts = [(s, t) for s, t in b.calls(lambda t: callee_is(t, r"Iterator::next$") and "hash_map::" in (op_fn(t["func"]) or {}).get("self", ""))]
+    pushes = [(s, t) for s, t in b.calls(lambda t: callee_is(t, r"Vec::<.*>::push$"))]
+    counted = set()
+    for s, t in lens:
+        l = op_local(t["args"][0])
+        if l is not None:
+            counted.add(A.canon_place(b, {"l": l, "p": ["*"]})["l"])
+    good = 0
+    for sn, tn in nexts:
+        cyc = {x for x in b.live_blocks if b.site_reaches(Site(b, x, 0), sn) and b.site_reaches(sn, Site(b, x, 0))} | {sn.bb}
+        # exits of the loop: only the None edge of the switch on next()'s result
+        nb = tn["t"]
+        exits = [(x, y) for x in cyc for y in b.succ[x] if y not in cyc]
+        ok_exit = bool(exits) and all(x == nb and b.blocks[x]["term"]["k"] == "switch" for x, y in exits)
+        if not ok_exit:
+            continue
+        for sp, tp in pushes:
+            if sp.bb not in cyc:
+                continue
+            l = op_local(tp["args"][0])
+            if l is None or A.canon_place(b, {"l": l, "p": ["*"]})["l"] not in counted:
+                continue
+            gs = [g for g in A.guards_of(b, sp) if g.bb in cyc and g.bb != nb]
+            only_match = bool(gs) and all((g.cond_def() or [None])[0] == "discr" and _is_call(b, g, r"Regex::captures_read(_at)?$") and g.variants() == {"Some"} for g in gs)
+            if only_match:
+                good += 1
+    return good == len(nexts) and good >= 1
+
+
+def _is_call(b, g, rx):
+    d = g.cond_def()
+    if not d or d[0] != "discr":
+        return False
+    l = d[1]["l"]
+    for _ in range(5):
+        dd = A.local_def_desc(b, l)
+        if dd[0] == "call":
+            return callee_is(dd[2], rx)
+        if dd[0] == "place":
+            l = dd[1]["l"]
+            continue
+        return False
+    return False
 
 
 def r3(F, R):
@@ -134,18 +229,21 @@ def r3(F, R):
 
 
 def r4(F, R):
-    b = find_body(F)
-    zips = [(s, t) for s, t in b.calls(lambda t: callee_is(t, r"Iterator::zip$"))]
-    R.check(len(zips) == 1, "matches/zip", b, "", f"{len(zips)} zip calls")
+    b0 = find_body(F)
+    fam = roles.family(F, b0)
+    # (the pairing may live in a private helper of `find`: every body of the family is searched)
+    zips = [(fb, s, t) for fb in fam for s, t in fb.calls(lambda t: callee_is(t, r"Iterator::zip$"))]
+    R.check(len(zips) == 1, "matches/zip", b0, "", f"{len(zips)} zip calls")
     if len(zips) != 1:
         return
-    s, t = zips[0]
+    b, s, t = zips[0]
     # left: capture names (mapped), right: once(whole).chain(range.map(..))
     lch = [callee_path(c).rsplit("::", 1)[-1] for _, c in A.receiver_chain(b, t["args"][0])]
     lsl = A.slice_back(b, [t["args"][0]])
     names_ty = any("regex::CaptureNames" in b.locals[l] for l in lsl.locals)
     R.check(lsl.has_call(r"Regex::capture_names$") or names_ty, "matches/names-first", s, "names.zip(values)", f"the left side of the zip is not the regex's capture names ({lch[:3]})")
-    rsd = b.single_def(op_local(t["args"][1])) if op_local(t["args"][1]) is not None else None
+    _rl = op_local(t["args"][1])
+    rsd = b.single_def(A.canon_place(b, {"l": _rl, "p": []})["l"]) if _rl is not None else None
     ok_chain = bool(rsd and rsd[1] == "call" and callee_is(rsd[2], r"Iterator::chain$"))
     R.check(ok_chain, "matches/whole-then-groups", s, "once(whole).chain(groups)", "the values are not `once(whole match).chain(groups)`")
     if ok_chain:
@@ -162,21 +260,27 @@ def r4(F, R):
                 kb = A.closure_of_operand(F, b, c["args"][1])
         dflt = []
         if kb is not None:
-            for _, c in kb.calls(lambda c: callee_is(c, r"Option::<.*>::map_or$")):
-                dflt.append(const_str(c["args"][1]))
+            # the group closure's path table: with `captures.get(i)` None it returns the empty string
+            from . import deep as D
+            for p in D.Deep(F, kb, max_paths=200).run():
+                none = any(a[0] == "discr" and o == "None" and a[1][0] == "call" and re.search(r"CaptureLocations::get$", a[1][1]) for a, o in p.conds)
+                if none:
+                    lits = [x[1] for x in D.subterms(p.ret) if x[0] == "const" and isinstance(x[1], str)]
+                    news = [x for x in D.subterms(p.ret) if x[0] == "call" and re.search(r"String::new$|Default::default$", x[1])]
+                    dflt.append(lits[0] if lits else ("" if news else "?"))
         R.check(dflt == [""], "matches/missing-group-empty", kb or rsd[0], 'captures.get(i).map_or("", ..)', f"non-participating groups default to {dflt}")
     # group texts are cut out of the very string the regex was matched against
-    reads = [(nb, s, t) for nb in F.nested(b) for s, t in nb.calls(lambda t: callee_is(t, r"Regex::captures_read(_at)?$"))]
+    reads = [(nb, s, t) for nb in fam for s, t in nb.calls(lambda t: callee_is(t, r"Regex::captures_read(_at)?$"))]
     hay = set()
     for nb, s, t in reads:
-        ds = A.deep_slice(F, nb, [t["args"][2]])
-        hay |= {(o, n) for o, n in ds.fields if o == "gherkin::Step"}
-    idx = [(nb, s, t) for nb in F.nested(b) for s, t in nb.calls(lambda t: callee_is(t, r"ops::Index.*::index$") and "str" in (op_fn(t["func"]) or {}).get("full", ""))]
+        fs, _cs = A.fields_through_callers(F, nb, t["args"][2], fam)
+        hay |= {(o, n) for o, n in fs if o == "gherkin::Step"}
+    idx = [(nb, s, t) for nb in fam for s, t in nb.calls(lambda t: callee_is(t, r"ops::Index.*::index$") and "str" in (op_fn(t["func"]) or {}).get("full", ""))]
     base = set()
     for nb, s, t in idx:
-        ds = A.deep_slice(F, nb, [t["args"][0]])
-        base |= {(o, n) for o, n in ds.fields if o == "gherkin::Step"}
-        other = ds.has_call(r"Match.*::as_str$")
+        fs, cs = A.fields_through_callers(F, nb, t["args"][0], fam)
+        base |= {(o, n) for o, n in fs if o == "gherkin::Step"}
+        other = any(callee_is(ct, r"Match.*::as_str$") for _, ct in cs)
         R.check(not other, "matches/group-offsets-in-haystack", s, "group text = &step.value[s..e]",
                 "capture offsets (relative to the whole step text) are applied to a different string (the match substring): wrong group texts or a panic")
     R.check(len(reads) == 1 and len(idx) == 1 and hay == base == {("gherkin::Step", "value")}, "matches/indexed-string-is-matched-string", b,
